@@ -22,7 +22,7 @@ def P(pid, streams, oracle, rule, assumptions, examples=0, extra_modules=()):
 
 # (stream, cases quick, cases thorough); oracle = (id, budget quick, budget thorough)
 PROPS = {
-    'C01': P('C01', [], ('C01', 6000, 120000),
+    'C01': P('C01', [('codepair', 2000, 30000), ('lines', 200, 3000), ('inlineops', 1500, 20000), ('link', 2000, 20000), ('entity', 2000, 20000), ('url', 2000, 30000), ('smap', 100, 1500)], ('C01', 6000, 120000),
              "oracle: parse->render->xrender under catch_unwind on grammar/spec/mutated/adversarial/malformed documents x configuration sample (subsets, orders, max_nesting); non-trivial = contains a markdown-significant character; distinct by hash of (cfg, source)",
              ["whole-pipeline totality theorem is _partial: mechanism theorems + rule-level correspondence + oracle cover the composition",
               "hang = wall time beyond 2 s + 1 ms/byte; stack exhaustion is covered by C02"]),
@@ -53,10 +53,10 @@ PROPS = {
     'C10': P('C10', [('lines', 300, 4000)], ('C10', 4000, 80000),
              "oracle: LF->CRLF, LF->CR and final-newline relations on the real crate for all generators x configuration sample incl. sourcepos",
              []),
-    'C11': P('C11', [], ('C11', 4000, 80000),
+    'C11': P('C11', [('codepair', 2000, 30000), ('lines', 200, 3000)], ('C11', 4000, 80000),
              "oracle: payloads (fence look-alikes, entity/escape-like text, tabs, NUL, blank lines) x fenced/indented/span x nesting depth 0-3; node content and rendered <code> compared with the payload",
              ["span payloads: continuation lines do not start a block construct (block structure wins in CommonMark)"]),
-    'C12': P('C12', [], ('C12', 2500, 30000),
+    'C12': P('C12', [('entity', 4000, 40000)], ('C12', 2500, 30000),
              "oracle: named references of the entities table (all in thorough), numeric references over boundary classes + random sample in 3 spellings, 32 escapes x 5 contexts; round trip on random printable strings",
              []),
     'C13': P('C13', [('refs', 2500, 40000)], ('C13', 4000, 80000),
@@ -68,7 +68,7 @@ PROPS = {
     'C15': P('C15', [('smap', 150, 2500)], ('C15', 300, 5000),
              "smap stream: texts with lines around the checkpoint spacing (14-18, 30-34, 47-49, 64-70 chars), multi-byte characters, CR/LF/CRLF runs; EVERY offset 0..len+2 of each text; oracle: the two counting functions in Rust",
              []),
-    'C16': P('C16', [], ('C16', 2500, 50000),
+    'C16': P('C16', [('codepair', 3000, 40000)], ('C16', 2500, 50000),
              "oracle: dual-run look-ahead probe (hook) over all generators x configurations (+ custom rules), HTML with probe on = HTML with probe off, custom block rule in both look-ahead styles after every predecessor kind",
              []),
     'C17': P('C17', [('url', 4000, 60000)], ('C17', 4000, 80000),
